@@ -75,6 +75,10 @@ EDITS = {
     "codegen_double_or": ("libyara/parser.c", "        FAIL_ON_ERROR(yr_parser_emit(yyscanner, OP_OR, NULL));\n        matching++;", "        FAIL_ON_ERROR(yr_parser_emit(yyscanner, OP_OR, NULL));\n        FAIL_ON_ERROR(yr_parser_emit_push_const(yyscanner, 0));\n        FAIL_ON_ERROR(yr_parser_emit(yyscanner, OP_OR, NULL));\n        matching++;", None),
     "push_rule_disabled_false": ("libyara/exec.c", "      if (RULE_IS_DISABLED(rule))\n      {\n        r2.i = YR_UNDEFINED;", "      if (RULE_IS_DISABLED(rule))\n      {\n        r2.i = 0;", None),
     "disabled_rule_evaluated": ("libyara/exec.c", "      bool skip_rule = RULE_IS_DISABLED(current_rule);", "      bool skip_rule = false;", None),
+    # ---- fourth batch: doubles (promotion placement, opcode family, double primitives)
+    "int_to_dbl_swapped": ("libyara/parser.c", "          (left_operand.type == EXPRESSION_TYPE_INTEGER) ? 2 : 1,", "          (left_operand.type == EXPRESSION_TYPE_INTEGER) ? 1 : 2,", None),
+    "int_to_dbl_undef_lost": ("libyara/exec.c", "      if (is_undef(r2))\n        stack.items[stack.sp - r1.i].i = YR_UNDEFINED;\n      else\n        stack.items[stack.sp - r1.i].d = (double) r2.i;", "      stack.items[stack.sp - r1.i].d = (double) r2.i;", None),
+    "dbl_sub_swapped": ("libyara/exec.c", "      r1.d = r1.d - r2.d;", "      r1.d = r2.d - r1.d;", None),
 }
 
 
